@@ -53,6 +53,15 @@ def make_square(rng, n, kind):
         u = 1j if rng.random() < 0.7 else 1.0
         A = np.array([[0 if i == j else u * rng.choice([-1, 1]) * rng.uniform(0.2, 3.0) for j in range(n)] for i in range(n)], complex).reshape(n, n)
         A = (A + A.T) / 2 if n > 1 else np.array([[u * 1.5]], complex)
+    elif kind == 'smallpivot' and n >= 2:
+        # one row whose entry in some column is small while its other entries are large (an impedance matrix with a milliohm self
+        # term next to kilohm transfer terms): a pivot search that favours rows with large entries takes the small one as pivot
+        i0, j0 = rng.randrange(n), rng.randrange(n)
+        k = 10.0 ** rng.uniform(3, 8)
+        for j in range(n):
+            if j != j0:
+                A[i0, j] *= k
+        A[i0, j0] *= 10.0 ** rng.uniform(-4, -1)
     elif kind == 'leadblock' and n >= 3:
         # a leading k x k block that is singular or nearly so while the whole matrix is well conditioned:
         # elimination without a row exchange at step k-1 meets a zero / tiny pivot
@@ -93,6 +102,34 @@ def rowwise_residual(A, X, B):
     return float(q.max()) if q.size else 0.0
 
 
+def pivot_tie(A, pc, pm):
+    """the first step at which the pivot rows `pc` (library) and `pm` (model) differ is a tie of the pivot rule: the two candidates
+    (entry times the reciprocal of its row's largest magnitude) agree to 1e-12 — which of two equal candidates wins is decided by the
+    last bit of `cabs`, not by the rule.  Crout elimination re-done here, following the library's choices"""
+    n = len(pc)
+    W = np.array(A, complex).copy()
+    rows = list(range(n))
+    with np.errstate(all='ignore'):
+        scale = [(1.0 / m_ if m_ != 0 else 0.0) for m_ in np.abs(W).max(axis=1)]
+        for j in range(n):
+            for i in range(j):
+                W[i, j] -= W[i, :i] @ W[:i, j]
+            for i in range(j, n):
+                W[i, j] -= W[i, :j] @ W[:j, j]
+            t = {rows[i]: scale[i] * abs(W[i, j]) for i in range(j, n)}
+            c, m = int(pc[j]), int(pm[j])
+            if c != m:
+                return c in t and m in t and abs(t[c] - t[m]) <= 1e-12 * max(t[c], t[m])
+            i = rows.index(c)
+            if i != j:
+                W[[i, j]] = W[[j, i]]
+                rows[i], rows[j] = rows[j], rows[i]
+                scale[i] = scale[j]
+            if j != n - 1:
+                W[j + 1:, j] /= W[j, j]
+    return True
+
+
 def parse_x(line, m, n):
     w = line.split()
     k = w.index('X')
@@ -115,7 +152,7 @@ def run(chk):
     TOL = 1e-10
     lines, cases = [], []
     for _ in range(N):
-        for kind in ('random', 'rowscaled', 'graded', 'colscaled', 'int', 'permuted', 'leadblock', 'lossless'):
+        for kind in ('random', 'rowscaled', 'graded', 'colscaled', 'int', 'permuted', 'leadblock', 'lossless', 'smallpivot', 'smallpivot'):
             n = rng.randint(1, nmax)
             k = rng.randint(1, 3)
             A = make_square(rng, n, 'random' if kind == 'permuted' else kind)
@@ -213,6 +250,9 @@ def run(chk):
                     fm = np.array(vlib.hs2c(mw[mw.index('A') + 1:]), complex)
                     fc = np.array(vlib.hs2c(cw[cw.index('A') + 1:]), complex)
                     same = pm == pc and fm.shape == fc.shape and (fm.size == 0 or float(np.abs(fm - fc).max()) <= 1e-9 * max(1e-300, float(np.abs(fc).max())))
+                    if pm != pc and fm.shape == fc.shape and pivot_tie(A, pc, pm):
+                        chk.count('lu_pivot_tie')
+                        continue
                 except ValueError:
                     same = False
                 if not same:
